@@ -207,6 +207,14 @@ func c06Check(ctx *Ctx, idx int, cs c06Case) {
 	if ctx.Driver == nil || cs.FaultAt != "" || strings.Contains(cs.Config, "id-hint") {
 		return
 	}
+	// a client variable called `id` (open finding variable-named-id of C01/C02): the receiving
+	// service rejects the follow-up lookup whose header declares $id with the client's type and the
+	// executor stops there; Model.gateway's downstream does not validate and goes on, so the call
+	// lists are not comparable. The property oracle above has judged the case.
+	if hasFeature(cs.coreCase, "variable-named-id") || op.VariableDefinitions.ForName("id") != nil {
+		ctx.Rep.Count("correspondence skipped: client variable named id (open finding variable-named-id)")
+		return
+	}
 	dreq := driverCtx(cf, op, cs.coreCase)
 	dreq["op"] = "core.gateway"
 	mres, derr := ctx.Driver.Call(dreq)
